@@ -1103,6 +1103,61 @@ func main() {
 			}
 		}
 		findItems(ds, ps, "writes")
+	case "no-quorum":
+		// one partition, two replicas; the node of one replica dies: the partition's group has lost its quorum.  Writes
+		// through a surviving node - given more time than the server's own proposal time limit - are not acknowledged
+		// (nothing can be committed), whatever error the storage layer ran into
+		ctx0, cancel0 := context.WithTimeout(context.Background(), 5*time.Second)
+		d, err := pb.NewDatasetManagerClient(a.conn).Create(ctx0, &pb.Dataset{Dimension: 3, Space: pb.Space_Euclidean, PartitionCount: 1, ReplicationFactor: 2})
+		cancel0()
+		if err != nil || len(d.GetPartitions()) != 1 || len(d.GetPartitions()[0].GetNodeIds()) != 2 {
+			emit(event{"ev": "noquorum", "tried": 0, "acked": 0, "rets": []string{}, "why": fmt.Sprint("no dataset: ", err)})
+			break
+		}
+		time.Sleep(1500 * time.Millisecond)
+		reps := d.GetPartitions()[0].GetNodeIds()
+		byId := map[uint64]*proc{1: a, 2: b, 3: c}
+		victim, via := byId[reps[1]], byId[reps[0]]
+		// a first write, with both replicas up, succeeds (the group works)
+		warm := func(k int) string {
+			ctx, cancel := context.WithTimeout(context.Background(), 8*time.Second)
+			defer cancel()
+			_, err := pb.NewDataManagerClient(via.conn).Insert(ctx, &pb.InsertRequest{DatasetId: d.GetId(), Id: wid(k), Value: []float32{float32(k), 1, 0}})
+			if err != nil {
+				return err.Error()
+			}
+			return "ok"
+		}
+		w0 := warm(1)
+		victim.kill()
+		time.Sleep(500 * time.Millisecond)
+		rets := []string{}
+		acked := 0
+		other := a
+		for _, p := range []*proc{a, b, c} {
+			if p != victim && p != via {
+				other = p
+			}
+		}
+		for i, p := range []*proc{via, other} {
+			ctx, cancel := context.WithTimeout(context.Background(), 9*time.Second)
+			var err error
+			if i == 0 {
+				_, err = pb.NewDataManagerClient(p.conn).Insert(ctx, &pb.InsertRequest{DatasetId: d.GetId(), Id: wid(2 + i), Value: []float32{2, 1, 0}})
+			} else {
+				_, err = pb.NewDataManagerClient(p.conn).Update(ctx, &pb.UpdateRequest{DatasetId: d.GetId(), Id: wid(1), Value: []float32{1, 1.5, 0}})
+			}
+			cancel()
+			if err == nil {
+				acked++
+				rets = append(rets, "ok")
+			} else {
+				rets = append(rets, err.Error())
+			}
+		}
+		emit(event{"ev": "noquorum", "tried": 2, "acked": acked, "rets": rets, "why": "first write with both replicas up: " + w0})
+		victim.start()
+		observe(ps, "restart")
 	case "rejoin-stale":
 		// a removed node joins again - same id, same address - through a member that applies late and has not yet
 		// applied the removal: whatever that member believes locally, the join has to go through the log, or it is
